@@ -989,4 +989,85 @@ def mon_c20(cfg, steps):
                 out.append({"step": s.idx, "what": "ANY: %s unpacks an Any with a mismatched type URL" % t[1]})
     return out
 
-MONITORS = {"C20": mon_c20, "C04": mon_c04, "C15": mon_c15, "C03": mon_c03, "C08": mon_c08, "C10": mon_c10, "C11": mon_c11, "C12": mon_c12, "C05": mon_c05, "C06": mon_c06, "C17": mon_c17, "C13": mon_c13, "C14": mon_c14, "C09": mon_c09, "C07": mon_c07, "C18": mon_c18}
+# ---------------- C19 ----------------
+def pb_varint(n):
+    out = b""
+    while True:
+        b = n & 0x7f; n >>= 7
+        if n:
+            out += bytes([b | 0x80])
+        else:
+            return out + bytes([b])
+
+
+def pb_str(tag, v):
+    if isinstance(v, str):
+        v = v.encode()
+    return b"" if not v else pb_varint(tag * 8 + 2) + pb_varint(len(v)) + v
+
+
+def pb_msg(tag, v):
+    return pb_varint(tag * 8 + 2) + pb_varint(len(v)) + v
+
+
+TF_PKG = {"osmosis": "/osmosis.tokenfactory.v1beta1.", "miniwasm": "/miniwasm.tokenfactory.v1."}
+
+
+def mon_c19(cfg, steps):
+    """token-factory messages on the implementation's own output: type URL of the target chain's module, canonical bytes,
+    contract as sender and holder, denom factory/<contract>/<subdenom>, exact amount; none from any other call"""
+    out = []
+    backend = cfg[1]; me = unhex(cfg[2]).decode(); pkg = TF_PKG.get(backend, "?")
+    for s in steps:
+        t = s.optoks
+        if s.res != "ok" or t[0] not in ("inst", "exec", "reply", "sudo"):
+            continue
+        tf = [m for m in s.msgs if m["facet"] in ("msg:create", "msg:mint", "msg:burn") or "tokenfactory" in m.get("url", "")]
+        k = t[5] if t[0] == "exec" else t[0]
+        def bad(what):
+            out.append({"step": s.idx, "what": what})
+        for m in tf:
+            name = {"msg:create": "MsgCreateDenom", "msg:mint": "MsgMint", "msg:burn": "MsgBurn"}.get(m["facet"])
+            if name is None or m.get("url") != pkg + name:
+                bad("TF-URL: %s emits type URL %r; the %s build's token-factory module is %s*" % (k, m.get("url"), backend, pkg))
+            if m.get("undecodable"):
+                bad("TF-BYTES: %s emits undecodable token-factory bytes" % k)
+        if k == "inst":
+            lst = (s.st or {}).get("lst", "")
+            if len(tf) != 1 or tf[0]["facet"] != "msg:create":
+                bad("TF-COUNT: instantiate emitted %s, expected one create-denom" % [m["facet"] for m in tf]); continue
+            m = tf[0]
+            if m.get("sender") != me or lst != "factory/%s/%s" % (me, m.get("sub")):
+                bad("TF-CREATE: create-denom by %s for sub-denom %r, contract %s configured LST denom %r" % (m.get("sender"), m.get("sub"), me, lst))
+            if m["value"] != pb_str(1, m.get("sender", "")) + pb_str(2, m.get("sub", "")):
+                bad("TF-BYTES: create-denom bytes are not the canonical encoding of (sender, subdenom)")
+        elif k == "stake" and s.pre is not None and s.st is not None:
+            if len(tf) != 1 or tf[0]["facet"] != "msg:mint":
+                bad("TF-COUNT: LiquidStake emitted %s, expected one mint" % [m["facet"] for m in tf]); continue
+            m = tf[0]; lst = s.pre["lst"]
+            _, l1, _ = swept(s.pre)
+            if m.get("sender") != me or m.get("addr") != me or m.get("denom") != lst or not lst.startswith("factory/%s/" % me):
+                bad("TF-MINT: mint fields sender=%s mint_to=%s denom=%s; contract %s, LST denom %s" % (m.get("sender"), m.get("addr"), m.get("denom"), me, lst))
+            if m.get("amount") != s.st["L"] - l1:
+                bad("TF-MINT-AMOUNT: mint message carries %s, the contract accounts %d liquid tokens for this stake" % (m.get("amount"), s.st["L"] - l1))
+            canon = pb_str(1, m.get("sender", "")) + pb_msg(2, pb_str(1, m.get("denom", "")) + pb_str(2, str(m.get("amount", 0)))) + pb_str(3, m.get("addr", ""))
+            if m["value"] != canon:
+                bad("TF-BYTES: mint bytes are not the canonical encoding of (sender, coin, mint_to)")
+        elif k == "submit" and s.pre is not None and s.st is not None:
+            if len(tf) != 1 or tf[0]["facet"] != "msg:burn":
+                bad("TF-COUNT: SubmitBatch emitted %s, expected one burn" % [m["facet"] for m in tf]); continue
+            m = tf[0]; lst = s.pre["lst"]; b = s.pre["batches"].get(s.pre["pending"]) or {}
+            holder_ok = (m.get("addr") == me) if backend == "osmosis" else (m.get("addr") in ("", None))
+            if m.get("sender") != me or not holder_ok or m.get("denom") != lst:
+                bad("TF-BURN: burn fields sender=%s burn_from=%r denom=%s; contract %s, LST denom %s" % (m.get("sender"), m.get("addr"), m.get("denom"), me, lst))
+            if m.get("amount") != b.get("total") or m.get("amount") != s.pre["L"] - s.st["L"]:
+                bad("TF-BURN-AMOUNT: burn message carries %s, the submitted batch holds %s and the LST total fell by %d" % (m.get("amount"), b.get("total"), s.pre["L"] - s.st["L"]))
+            canon = pb_str(1, m.get("sender", "")) + pb_msg(2, pb_str(1, m.get("denom", "")) + pb_str(2, str(m.get("amount", 0)))) + pb_str(3, m.get("addr", "") or "")
+            if m["value"] != canon:
+                bad("TF-BYTES: burn bytes are not the canonical encoding of (sender, coin[, burn_from])")
+        elif tf:
+            bad("TF-COUNT: %s emitted token-factory messages %s" % (k, [m["facet"] for m in tf]))
+    return out
+
+
+MONITORS = {"C19": mon_c19, "C20": mon_c20, "C04": mon_c04, "C15": mon_c15, "C03": mon_c03, "C08": mon_c08, "C10": mon_c10, "C11": mon_c11, "C12": mon_c12, "C05": mon_c05, "C06": mon_c06, "C17": mon_c17, "C13": mon_c13, "C14": mon_c14, "C09": mon_c09, "C07": mon_c07, "C18": mon_c18}
